@@ -277,6 +277,8 @@ PROPS = {
              "need": ["MintFrom/ok", "MintFrom/is_minter", "Mint/is_minter", "AddMinter/ok", "RemoveMinter/ok", "TransferOwnership/ok"],
              "control": zero_amount_control},
             TOKEN_TRACE,
+            # unbounded histories and unbounded amounts, on the design: non-negativity and supply = minted - burned
+            {"kind": "apalache", "tiers": ["thorough"], "module": "TokenInd", "inv": "IndInv", "refute": "NotInvariant"},
         ],
         "level_text": "TLC proves the token step rules (exact deltas, conservation of supply, non-negativity, allowance decrease and expiry, minters only, admin event names previous and new) on every transition of three finite instances (unit amounts; the i128 lattice where 2 units = i128::MAX-1; minter/owner changes) - all interleavings, no depth bound; transitions are executed against the natively registered token from /repo and balances, effective allowances of all pairs, minters and events compared. Quick replays a node cover plus a seeded sample, thorough every edge.",
         "rule": "cases = transitions of the bounded TLC instances replayed against the contract; distinct = distinct (abstract pre-state, action) pairs",
